@@ -30,11 +30,12 @@ GenNext ==
     \/ Quiet /\ \E t \in TxUniverse, n \in Heights : E_Mine(t[1], n, 1, t[2]) /\ Bump("mine") /\ Rec("Mine", [tx |-> t[1], n |-> n, status |-> 1, logs |-> t[2]])
     \/ MidScan /\ (GChainChange \/ (MidScanHeads /\ GHeadChange))
     \/ MidReobs /\ (GHeadChange \/ GChainChange)
+    \/ MidIntake /\ (GHeadChange \/ GChainChange)
     \/ Quiet /\ \E tx \in DOMAIN rcpt : \E i \in 1..Len(txs[tx]) : PushLog(tx, i, IsMsg(txs[tx][i])) /\ Bump("push") /\ Rec("PushLog", [tx |-> tx, i |-> i])
-    \/ lq # Nil /\ L_BlockTime(lq.e.blk) /\ UNCHANGED cnt /\ W("L_BlockTime")
+    \/ lq # Nil /\ (HeldIntake => hs = Nil /\ Len(hq) = 0) /\ L_BlockTime(lq.e.blk) /\ UNCHANGED cnt /\ W("L_BlockTime")
     \/ L_Insert /\ UNCHANGED cnt /\ W("L_Insert")
-    \/ rs = Nil /\ lq = Nil /\ (HeadFor(Tag) > pl \/ Fails("poll")) /\ Len(hq) < 2 /\ B_Poll(Tag) /\ UNCHANGED cnt /\ W("B_Poll")
-    \/ rs = Nil /\ lq = Nil /\ Len(hq) > 0 /\ H_Head(Head(hq)) /\ UNCHANGED cnt /\ W("H_Head")
+    \/ rs = Nil /\ IntakeOK /\ (HeadFor(Tag) > pl \/ Fails("poll")) /\ Len(hq) < 2 /\ B_Poll(Tag) /\ UNCHANGED cnt /\ W("B_Poll")
+    \/ rs = Nil /\ IntakeOK /\ Len(hq) > 0 /\ H_Head(Head(hq)) /\ UNCHANGED cnt /\ W("H_Head")
     \/ \E e \in pending : H_Receipt(e) /\ UNCHANGED cnt /\ W("H_Receipt")
     \/ hs # Nil /\ hs.fwd # Nil /\ H_Forward(hs.fwd.e) /\ UNCHANGED cnt /\ W("H_Forward")
     \/ \E A \in SUBSET Abandonable : H_Done(A) /\ UNCHANGED cnt /\ W("H_Done")
